@@ -517,6 +517,19 @@ func init() {
 		vr + "StrInRe": func(fr *frame, args []value) value {
 			return &Sym{SBool, app("str.in_re", lift(args[0]).e, args[1].(string))}
 		},
+		// PermuteOnly(k): from now on, permute the iteration order of the k-th range over a map
+		// executed in repository code (all orders for <= 4 entries, rotations + reverse otherwise).
+		vr + "PermuteOnly": func(fr *frame, args []value) value {
+			fr.i.permuteActive = true
+			fr.i.permuteAt = int(asInt64(args[0]))
+			fr.i.permuteCount = 0
+			return nil
+		},
+		vr + "PermuteOff": func(fr *frame, args []value) value {
+			n := fr.i.permuteCount
+			fr.i.permuteActive = false
+			return n
+		},
 		vr + "Same": func(fr *frame, args []value) value {
 			a, b := args[0].(iface), args[1].(iface)
 			if !sameType(a.t, b.t) {
